@@ -10,6 +10,7 @@ use std::panic::{catch_unwind, AssertUnwindSafe};
 /// progress beacon for the watchdog thread (main.rs): a counter bumped before every call into the
 /// subject and the text of the current case so far (replay format)
 pub static BEAT: std::sync::atomic::AtomicU64 = std::sync::atomic::AtomicU64::new(0);
+pub static PANIC_DEPTH: std::sync::atomic::AtomicU32 = std::sync::atomic::AtomicU32::new(0);
 pub static DONE: std::sync::atomic::AtomicBool = std::sync::atomic::AtomicBool::new(false);
 pub static CUR: std::sync::Mutex<String> = std::sync::Mutex::new(String::new());
 fn beat_case(head: &str) {
@@ -96,6 +97,7 @@ pub fn run_case(
         alloc::track(true);
         let r = catch_unwind(AssertUnwindSafe(|| f()));
         alloc::track(false);
+        PANIC_DEPTH.store(0, std::sync::atomic::Ordering::Relaxed);
         r
     };
     beat_case(&format!("C {} {} {}\n{}", id, kind, join(cfg), if meta.is_empty() { String::new() } else { format!("X {}\n", meta) }));
